@@ -128,3 +128,18 @@ func RangeLoopOfGlobal(fn *ssa.Function, global string) *Loop {
 	}
 	return nil
 }
+
+// EveryIteration: in is inside a loop and runs on every iteration of its innermost loop (every back edge of
+// that loop is dominated by it). inLoop is false when the instruction is in no loop.
+func EveryIteration(in ssa.Instruction) (inLoop, every bool) {
+	l := InnermostLoop(in.Block())
+	if l == nil {
+		return false, false
+	}
+	for _, pr := range l.Header.Preds {
+		if l.Blocks[pr] && !Dominates(in, pr.Instrs[len(pr.Instrs)-1]) {
+			return true, false
+		}
+	}
+	return true, true
+}
